@@ -25,6 +25,7 @@ import (
 	"github.com/transparency-dev/witness/internal/persistence"
 	"github.com/transparency-dev/witness/internal/persistence/inmemory"
 	psql "github.com/transparency-dev/witness/internal/persistence/sql"
+	"github.com/transparency-dev/witness/internal/verif/kit/asmunits"
 	"github.com/transparency-dev/witness/internal/verif/kit/crash"
 	"github.com/transparency-dev/witness/internal/verif/kit/ev"
 	"github.com/transparency-dev/witness/internal/verif/kit/gen"
@@ -281,6 +282,11 @@ func main() {
 	run.Exhaustive(true)
 	run.Extra("single_fault_plan_count", len(plans))
 	run.Floor("single_fault_reached", int64(len(plans)))
+	// the assembled service must make progress again once storage faults stop (bounded by the log's own polls)
+	run.Floor("assembled_progress_episodes", 8)
+	run.Units("asm_progress", run.Pick(10, 80), 5, func(unit int64, r *rand.Rand) {
+		asmunits.Progress(run, unit, r, "storage_fault_burst", "fault_on_first_read_after_restart")
+	})
 	run.Units("single", len(plans), 0, func(unit int64, r *rand.Rand) {
 		p := plans[unit]
 		b, err := newBench(r, p.level, dir)
